@@ -10,21 +10,21 @@ This is what the aliasing probes of `harness/agg/text.py` look for on the real o
 namespace MlModel.C11
 open MlModel.Agg.Text
 
-def aliasProg : List Op :=
+def textAliasProg : List Op :=
   [.make, .make, .add 1 [['a']], .merge 0 1, .add 0 [['a'], ['a']]]
 
-def aliasMetric : Metric := .patterns { patterns := [['a']] }
+def textAliasMetric : Metric := .patterns { patterns := [['a']] }
 
 /-- value semantics: accumulator 1 still holds its own single text -/
 theorem C11_text_alias_witness_values :
-    (prun aliasMetric [] aliasProg).1 = [⟨[(['a'], 3)], 3⟩, ⟨[(['a'], 1)], 1⟩] := by decide
+    (prun textAliasMetric [] textAliasProg).1 = [⟨[(['a'], 3)], 3⟩, ⟨[(['a'], 1)], 1⟩] := by decide
 
 /-- the real (copying) merge agrees with the value semantics on this program -/
 theorem C11_text_alias_witness_real :
-    (run aliasMetric {} aliasProg).1.abs = (prun aliasMetric [] aliasProg).1 := by decide
+    (run textAliasMetric {} textAliasProg).1.abs = (prun textAliasMetric [] textAliasProg).1 := by decide
 
 /-- the adopting merge does not: the later `add` to accumulator 0 leaked into accumulator 1 -/
 theorem C11_text_alias_witness :
-    (runAlias aliasMetric {} aliasProg).1.abs ≠ (prun aliasMetric [] aliasProg).1 := by decide
+    (runAlias textAliasMetric {} textAliasProg).1.abs ≠ (prun textAliasMetric [] textAliasProg).1 := by decide
 
 end MlModel.C11
